@@ -106,7 +106,7 @@ def voxel_pair(cell: str = "cubic3", cut_frac: float = 0.8, g0: int = 0, periodi
         xyz = [X.SReal(x0), y0, z0, X.SReal(x1), y1, z1]
         spec3 = [F(v).limit_denominator(100000) for v in spectator.split(",")] if spectator else []
         xyz += spec3
-        n_at = 3 if spec3 else 2
+        n_at = 2 + len(spec3) // 3
 
         def run():
             r = P.env["_compute_neighborlist"](X.Ptr(list(xyz), 0), n_at, cut, X.Ptr(list(box), 0) if periodic else None)
@@ -141,7 +141,7 @@ def voxel_pair(cell: str = "cubic3", cut_frac: float = 0.8, g0: int = 0, periodi
                 if r == z3.sat:
                     m = s.model()
                     val = lambda v: float(m.eval(v, model_completion=True).as_fraction())
-                    pos = [[val(x0), float(y0), float(z0)], [val(x1), float(y1), float(z1)]] + ([[float(v) for v in spec3]] if spec3 else [])
+                    pos = [[val(x0), float(y0), float(z0)], [val(x1), float(y1), float(z1)]] + [[float(v) for v in spec3[k:k + 3]] for k in range(0, len(spec3), 3)]
                     rep, script = replay(cell, float(cut), pos, periodic)
                     return {**tot, "status": "cex", "detail": f"cell {cell}, cutoff {float(cut):.4f}, atoms at {pos}: {why}; lists {lists}",
                             "cex": {"goal": "voxel_pair", "key": "voxel_pair", "inputs": {"cell": cell, "cutoff": float(cut), "positions": pos}, "reproduced": rep, "replay_script": script}}
